@@ -208,6 +208,8 @@ pub struct Search<C: 'static> {
     pub hang_secs: u64,
     /// cap on worker threads (real-time engines want fewer)
     pub max_threads: usize,
+    /// cap on proptest shrink iterations (real-time cases are expensive to re-run)
+    pub shrink_iters: u32,
 }
 
 pub trait SearchDef: Sync + Send {
@@ -269,6 +271,7 @@ where
             let strategy = self.strategy;
             let check = self.check;
             let name = self.name;
+            let shrink_iters = self.shrink_iters;
             let seed = ctx.seed;
             let known: Vec<(&'static str, fn(&C) -> bool)> =
                 active_known.iter().map(|k| (k.name, k.matches)).collect();
@@ -284,7 +287,7 @@ where
                     let config = Config {
                         cases: n as u32,
                         failure_persistence: None,
-                        max_shrink_iters: 2000,
+                        max_shrink_iters: shrink_iters,
                         max_global_rejects: 1 << 20,
                         max_local_rejects: 1 << 20,
                         ..Config::default()
